@@ -126,7 +126,15 @@ status_t StringMatcher :: SetPattern(const String & s, bool isSimple)
             {
                char c = *ptr;
 
-               if (escapeMode) escapeMode = false;
+               if (escapeMode)
+               {
+                  escapeMode = false;
+
+                  // The previous char was a backslash, so (c) is to be matched literally.  We pass the backslash on to regcomp() only
+                  // if (c) means something special to it:  a backslash in front of an ordinary char is undefined in POSIX regex-syntax
+                  // and e.g. glibc gives \w, \s, \b, \<, \>, \1 (etc) meanings of their own, which is not what the user asked for.
+                  if (strchr(".[]()*+?{}|^$\\", c) != NULL) regexPattern += '\\';
+               }
                else
                {
                   switch(c)
@@ -136,13 +144,13 @@ status_t StringMatcher :: SetPattern(const String & s, bool isSimple)
                      case '+':  regexPattern += '\\'; break;  // pluses are considered literals, so escape those
                      case '*':  regexPattern += '.';  break;  // hmmm.
                      case '?':  c = '.';              break;  // question marks mean any-single-char
-                     case '\\': escapeMode = true;    break;  // don't transform the next character!
+                     case '\\': escapeMode = true;    continue;  // don't transform the next character!  (whether to emit the backslash is decided when we see it)
                      default:   /* empty */           break;
                   }
                }
                regexPattern += c;
             }
-            if (escapeMode) regexPattern += '\\';  // just in case the user left a trailing backslash
+            if (escapeMode) regexPattern += "\\\\";  // just in case the user left a trailing backslash
             regexPattern += ")$";
          }
       }
